@@ -287,10 +287,10 @@ EXTRA = {
     "C02": "Under parse/*: the parser clauses ast/* (AST variant, operand order, no operand child dropped) and numeric/value "
            "(every numeral consumer interpreted on concrete numeral texts) of C03; the encoding is independent of which names are "
            "already defined.",
-    "C03": "Further clauses: grammar/label-lines (names beginning with a keyword), ast/no-operand-dropped, numeric/value on concrete "
+    "C03": "entry/text-as-written/*: every caller of AsmParser::parse in both crates (read_asm_file, RunnerConfig::run) hands the file content / configured program to the parser unchanged (backward provenance on MIR, sa/provenance.py). Further clauses: grammar/label-lines (names beginning with a keyword), ast/no-operand-dropped, numeric/value on concrete "
            "numerals, comment/trimmed on 341 concrete comment texts, label-check-propagates, program/* (one Line per line pair), and "
            "error-path/* (the conversion of a pest error interpreted for 0..5 expected rules). labels/limit is evaluated on concrete numbers of definitions on both sides of 40 and of 256. ast/operand-forms: the real operand parsers interpreted on PEG parse trees of concrete operand texts. grammar/no-call-limit: nothing in the workspace arms pest's process-wide call limit.",
-    "C05": "The pipeline agreement of C01 runs here as cpu-pipeline/*. fetch/*: an IR-loading control word reads the bus in the same word and latches that byte.",
+    "C05": "The pipeline agreement of C01 runs here as cpu-pipeline/*. fetch/*: an IR-loading control word reads the bus in the same word and latches that byte. limits/load/*: the load clauses of C07's rule (stored stack limit never NOSET, stated program size stored, AUTO = number of image bytes, per directive value) are part of this rule - the supervised limits are the limits the program states.",
     "C06": "The sites of Machine::load are analysed per *PROGRAMSIZE kind and keyed by the kinds they can fail for. contract/*: every call from the analysed functions to a std routine with a panic contract is an obligation.",
     "C07": "A latch classed 'constant None' is shown to be that constant (constant-none/*). load/default-limits: a program without limit directives is translated with the power-on stack limit and AUTO.",
     "C09": "The ALU rule of C08 runs here as alu/* (the loop exits are ALU conditions); both resets leave the power-on control state. sequencer-inputs/accessors: Signals::from wires each sequencer input to the source of its name. loop-data-path/*: the pipeline agreement of C01 restricted to the data-driven control words (registers only).",
@@ -298,9 +298,9 @@ EXTRA = {
            "input registers; the MICR stores exactly the documented six bits, each at its position. write-port-callers: Bus::write is called by the CPU write stage only. reset_ram-callers: RAM is cleared by the program loaders only. outside/command-register-names: the interactive command FC..FF = v sets the register it names. master-reset-callers/*: a master reset is issued by the program loaders only.",
     "C11": "The sequencer rule of C09 (with the ALU rule of C08) runs here as sequencer/*: a step returns because every defined opcode "
            "reaches the next fetch. step-skeleton/Assembly/every-word: the step skeleton with every programmed non-fetch word in the middle. boundary-predicate: is_instruction_done is true exactly on the fetch words.",
-    "C13": "no-recursion on the resolved call graph. contract/* as in C06; operator-trait calls on primitive integers (reference operands) are checked operations (site kind arith-call).",
-    "C14": "fan-period/pointwise: all 256 DAC bytes against the exact two-stage law, float operations evaluated in their MIR type.",
-    "C15": "The interrupt hand-over word and the MUL/DIV routines touch no bus address. documented-path/*: the pipeline agreement of C01 restricted to the data-driven control words (registers only). history/reset-control-state/*: a reset leaves the power-on control state (shared with C09). boundary-predicate: is_instruction_done is true exactly on the fetch words. wait/by-address: the wait flag follows the address handed to the bus, on register assignments that separate every pair of registers.",
+    "C13": "no-recursion on the resolved call graph. contract/* as in C06; operator-trait calls on primitive integers (reference operands) are checked operations (site kind arith-call). premise/load/*: the premise 'the raw machine's stack limit is never NOSET' behind the unreachable! arm of the stack supervision is decided where the limit is stored (C07's load clauses, per directive value).",
+    "C14": "fan-period/pointwise: all 256 DAC bytes against the exact two-stage law, float operations evaluated in their MIR type. f2-write-reaches-board/*: every write to 0xF2 reaches the selected board setter exactly once with the written byte in every board state (must-call by marker join; 3 x 64 bytes) - an ICR write is not idempotent because it clears the interrupt flip-flop.",
+    "C15": "The interrupt hand-over word and the MUL/DIV routines touch no bus address. documented-path/*: the pipeline agreement of C01 restricted to the data-driven control words (registers only). history/reset-control-state/*: a reset leaves the power-on control state (shared with C09). boundary-predicate: is_instruction_done is true exactly on the fetch words. wait/by-address: the wait flag follows the address handed to the bus, on register assignments that separate every pair of registers. edges/only-the-clock-key: RawMachine::trigger_clock_edge is reached only through Machine::trigger_key_clock (who-may-call over the resolved call graph of both crates) - no key handler or setter issues an uncounted edge.",
     "C17": "Key and command dispatch are must-calls (marker cell); every (code, modifiers) event forwarded to the editor is interpreted "
            "in InputState::handle; no panicking operator arithmetic on Duration/Instant in the TUI module. The helpers the dispatch analysis takes as given (InputState::is_empty, NotificationState::is_empty/clear) are decided on concrete states. load/*: the parser's no-panic clauses (C03 site/*, lexical/*, error-path/*) for the text handed over by `load PATH`.",
 }
